@@ -208,33 +208,44 @@ func ZZ_C22_voting() {
 }
 
 // ZZ_C22_voteoutput: a TransferAsset transaction (version 0x09) with one vote
-// output carrying a CRC, CRCProposal or CRCImpeachment content, which
-// optionally also spends an earlier vote output of each category.
+// output carrying a CRC, CRCProposal or CRCImpeachment content for one or two
+// targets (each with its own amount), which optionally also spends an earlier
+// vote output of any category (one or two targets).
 func ZZ_C22_voteoutput() {
 	c := zzCommittee(zzCRConfig())
 	cand := zzCandidate(c, 0, Active)
+	cand2 := zzCandidate(c, 1, Active)
 	member := &CRMember{Info: payload.CRInfo{CID: common.Uint168{0x67, 5}, DID: common.Uint168{0x67, 6}}, MemberState: MemberElected, ImpeachmentVotes: zzCRAmount("impeachmentVotes")}
 	c.Members[member.Info.DID] = member
-	ph := common.Uint256{0x99}
+	member2 := &CRMember{Info: payload.CRInfo{CID: common.Uint168{0x67, 7}, DID: common.Uint168{0x67, 8}}, MemberState: MemberInactive, ImpeachmentVotes: zzCRAmount("impeachmentVotes2")}
+	c.Members[member2.Info.DID] = member2
+	ph, ph2 := common.Uint256{0x99}, common.Uint256{0x9A}
 	prop := &ProposalState{Status: CRAgreed, VotersRejectAmount: zzCRAmount("rejectAmount"), CRVotes: map[common.Uint168]payload.VoteResult{},
 		WithdrawnBudgets: map[uint8]common.Fixed64{}, WithdrawableBudgets: map[uint8]common.Fixed64{}, BudgetsStatus: map[uint8]BudgetStatus{}}
-	c.manager.Proposals[ph] = prop
-	pc := zzCopyProposal(prop)
+	prop2 := &ProposalState{Status: CRAgreed, VotersRejectAmount: zzCRAmount("rejectAmount2"), CRVotes: map[common.Uint168]payload.VoteResult{},
+		WithdrawnBudgets: map[uint8]common.Fixed64{}, WithdrawableBudgets: map[uint8]common.Fixed64{}, BudgetsStatus: map[uint8]BudgetStatus{}}
+	c.manager.Proposals[ph], c.manager.Proposals[ph2] = prop, prop2
+	pc, pc2 := zzCopyProposal(prop), zzCopyProposal(prop2)
+	cv1, cv2 := cand.Votes, cand2.Votes
 
+	// a vote output of one category for one or two targets with their own amounts
 	mk := func(name string) *common2.Output {
 		var vt outputpayload.VoteType
-		var target []byte
+		var targets [][]byte
 		switch nd.Choose(name, 3) {
 		case 0:
-			vt, target = outputpayload.CRC, cand.Info.CID.Bytes()
+			vt, targets = outputpayload.CRC, [][]byte{cand.Info.CID.Bytes(), cand2.Info.CID.Bytes()}
 		case 1:
-			vt, target = outputpayload.CRCProposal, ph.Bytes()
+			vt, targets = outputpayload.CRCProposal, [][]byte{ph.Bytes(), ph2.Bytes()}
 		default:
-			vt, target = outputpayload.CRCImpeachment, member.Info.CID.Bytes()
+			vt, targets = outputpayload.CRCImpeachment, [][]byte{member.Info.CID.Bytes(), member2.Info.CID.Bytes()}
+		}
+		content := outputpayload.VoteContent{VoteType: vt}
+		for i, zzn := 0, nd.Choose(name+"Targets", 2)+1; i < zzn; i++ {
+			content.CandidateVotes = append(content.CandidateVotes, outputpayload.CandidateVotes{Candidate: targets[i], Votes: zzCRAmount("outputVotes")})
 		}
 		return &common2.Output{Type: common2.OTVote, Value: zzCRAmount("voteOutputValue"), ProgramHash: common.Uint168{0x21, 9},
-			Payload: &outputpayload.VoteOutput{Version: outputpayload.VoteProducerAndCRVersion, Contents: []outputpayload.VoteContent{{VoteType: vt,
-				CandidateVotes: []outputpayload.CandidateVotes{{Candidate: target, Votes: zzCRAmount("outputVotes")}}}}}}
+			Payload: &outputpayload.VoteOutput{Version: outputpayload.VoteProducerAndCRVersion, Contents: []outputpayload.VoteContent{content}}}
 	}
 	tx := &zzCRTx{typ: common2.TransferAsset, txver: common2.TxVersion09, id: common.Uint256{0x22, 6}, pld: &payload.TransferAsset{}}
 	refs := map[*common2.Input]common2.Output{}
@@ -250,6 +261,8 @@ func ZZ_C22_voteoutput() {
 	}
 	zzApplyAndRollback(c, tx)
 	zzAssertSameProposal(prop, pc)
+	zzAssertSameProposal(prop2, pc2)
+	nd.Assert(cand.Votes == cv1 && cand2.Votes == cv2, "rollback_restores_each_candidates_votes")
 }
 
 // ZZ_C22_funds: a transaction paying 1..2 outputs to the CR assets, CR
